@@ -9,3 +9,7 @@ func Point(name string) {}
 
 // Announce reports a DHT announce.
 func Announce(hash []byte, ipv6 bool, port uint16) {}
+
+// Fault marks a named point where an operation of the environment may be
+// made to fail.
+func Fault(name string) error { return nil }
